@@ -119,7 +119,7 @@ func (p *BundlePropertyExperimenter) Len() uint16 {
 }
 
 func (p *BundlePropertyExperimenter) MarshalBinary() (data []byte, err error) {
-	data = make([]byte, 0)
+	data = make([]byte, 12)
 	n := 0
 	binary.BigEndian.PutUint16(data[n:], p.Type)
 	n += 2
